@@ -7,7 +7,7 @@ From Coq Require Import ZArith List String Ascii Bool.
 From Model Require Import PyBase Graph PeriodicTable Stereo Writer.
 From Gen Require Import Elements SmilesTables.
 From Coq Require Import Permutation.
-From Proofs Require Import WriterProofs WriterProofsAtom WriterProofsTokens WriterProofsStream WriterProofsClosures.
+From Proofs Require Import WriterProofs WriterProofsAtom WriterProofsTokens WriterProofsStream WriterProofsClosures WriterProofsRefuted.
 Import ListNotations.
 Open Scope Z_scope.
 
@@ -218,3 +218,16 @@ Theorem C02_delayed_release_example :
   wf_events [] [] [[1]; [1; 2]; [2]].
 Proof. exact delayed_release_example. Qed.
 Print Assumptions C02_delayed_release_example.
+
+(* ---- the full goal `canonical_injective` (equal canonical strings => same molecule) is FALSE for the faithful model of the
+   current code: recorded finding cis-trans-on-ring-closure-double-bond.  Witness: smiles('C/C1=C/C=C/CCCCCC1') and the same
+   molecule with the cis/trans label of the ring-closure double bond 2=3 inverted, with the implementation's own weights
+   (_chiral_morgan), get one canonical string; replayed on the real code by the check on every run.  When the writer is
+   repaired this theorem must be deleted and the model updated. ---- *)
+Theorem C02_canonical_injective_refuted :
+  mol_eqb rf_g1 rf_g2 = false /\
+  list_eqb (pair_eqb Z.eqb atom_eqb) (m_atoms rf_g1) (m_atoms rf_g2) = true /\
+  smiles_text rf_g1 (rf_fun rf_w1) rf_tb default_opts rf_t1 = Ok ("C/C=1/CCCCCC/C=C/C=1"%string, rf_order) /\
+  smiles_text rf_g2 (rf_fun rf_w2) rf_tb default_opts rf_t2 = Ok ("C/C=1/CCCCCC/C=C/C=1"%string, rf_order).
+Proof. exact canonical_injective_refuted. Qed.
+Print Assumptions C02_canonical_injective_refuted.
